@@ -682,6 +682,7 @@ def run(c, facts):
     R10 = c.rule('C02.R10', 'RESOURCES-COMPLETE: every `res` statement of the main program is emitted (Program::resources yields all of them)')
     c.run(lambda c: c10.accessor_complete(c, facts, R10, 'oal_syntax::parser::Program::resources', 'resource'))
     c.run(r7_fallback_order, facts)
+    c.run(r7b_fallback_siblings, facts)
     c.run(r8_ref_transparent, facts)
     R9 = c.rule('C02.R9', 'JOIN-AGREE: an import binds to the module that was loaded for it (shared with C10.R5)')
     c.shared(R9, c10.r5_join_agree, 'C10.R5', facts)
@@ -1096,6 +1097,30 @@ def r7_fallback_order(c, facts):
             c.bad(R, '%s:%s:precedence-reversed' % (q.split('::')[-1], fld), '%s: %s now takes precedence over %s for `%s` (%s)' % (q, want[1], want[0], fld, why), **inst)
         else:
             c.bad(R, '%s:%s:precedence-chain-missing' % (q.split('::')[-1], fld), '%s no longer decides `%s` with %s first and %s as fallback (%s)' % (q, fld, want[0], want[1], why), **inst)
+
+
+def r7b_fallback_siblings(c, facts, rule='C02.R7'):
+    """the sibling emitters of one source field agree on its fallback: whatever decides whether an object member is
+    required (`p.required.or(p.schema.required)`: the ?/! mark, else the `required` annotation on the type) decides it for
+    a query parameter, a header parameter and a response header too - they are all built from a spec::Property"""
+    R = c.rule(rule, 'FALLBACK-ORDER: when two places can supply one document field, the language\'s precedence is kept')
+    first, second = 'Property.required', 'Schema.required'
+    readers = {}
+    for f in sorted(facts.fns.values(), key=lambda f: f.qname):
+        if f.crate != 'oal_openapi' or not f.mir:
+            continue
+        if any(place_fields(pl)[-1:] == [('Property', 'required')] for pl, w in operand_places(f) if not w):
+            home = facts.home(f)
+            readers.setdefault(home.qname, home)
+    c.floor(R, 'emitter functions that read Property.required', len(readers), 2)
+    for q, fn in sorted(readers.items()):
+        chains = or_chains(facts, fn)
+        hit = any(first in ch[0] and second in ch[1] for ch in chains) or (first, second) in match_fallbacks(facts, fn)
+        inst = {'fn': q, 'field': 'required', 'precedence': [first, second]}
+        if hit:
+            c.ok(R, inst)
+        else:
+            c.bad(R, '%s:required:fallback-differs-from-siblings' % q.split('::')[-1], '%s decides `required` from the ?/! mark alone, while object members fall back to the `required` annotation on the type: `\'q (str `required: true`)` is required as a property and optional as a parameter' % q, **inst)
 
 
 # ------------------------------------------------------------------------------------------- R8 REF-TRANSPARENT
